@@ -412,6 +412,42 @@ def typeinfo_case(ctx, rng, root, text, base_case):
     if solo != wrapped:
         j = next((j for j, (x, y) in enumerate(zip(solo, wrapped)) if x != y), min(len(solo), len(wrapped)))
         ctx.violation("typeinfo-wrapper-changes-log", {"tree": text[:300], "index": j, "solo": short_log(solo, j), "wrapped": short_log(wrapped, j)}, case)
+        return
+    # the type context a visitor is shown at a node must not depend on what it decided at other nodes (skip, break):
+    # compare with the context an idle visitor is shown at the same node
+    def context(ti):
+        return tuple(str(x) for x in (ti.get_type(), ti.get_parent_type(), ti.get_input_type(), ti.get_parent_input_type(),
+                                      getattr(ti.get_directive(), 'name', None), ti.get_enum_value() is not None))
+
+    class Recorder(Visitor):
+        def __init__(self, ti, script, out):
+            super().__init__()
+            self.ti, self.script, self.out = ti, script, out
+
+        def enter(self, node, *_a):
+            self.out.append((id(node), 'enter', context(self.ti)))
+            return to_real(self.script('enter', node)) if self.script else None
+
+        def leave(self, node, *_a):
+            self.out.append((id(node), 'leave', context(self.ti)))
+            return to_real(self.script('leave', node)) if self.script else None
+    idle, scripted = [], []
+    try:
+        ti1, ti2 = TypeInfo(rich()), TypeInfo(rich())
+        visit(root, TypeInfoVisitor(ti1, Recorder(ti1, None, idle)))
+        sc = Script(t)
+        visit(root, TypeInfoVisitor(ti2, Recorder(ti2, sc, scripted)))
+    except Exception as e:  # noqa: BLE001
+        ctx.violation(f"typeinfo-visit-crash:{type(e).__name__}", {"tree": text[:300], "exception": repr(e)[:200]}, case)
+        return
+    ctx.count("typeinfo_contexts_compared", len(scripted))
+    ref = {(i, ph): c for i, ph, c in idle}
+    for i, ph, c in scripted:
+        if ref.get((i, ph)) != c:
+            node = next((n for n in walk(root) if id(n) == i), None)
+            ctx.violation("typeinfo-context-depends-on-decisions", {"tree": text[:300], "script": repr(t)[:200], "node": getattr(node, 'kind', None), "phase": ph,
+                                                                   "idle_visitor_saw": ref.get((i, ph)), "this_visitor_saw": c}, case)
+            return
 
 
 def run_shard(ctx):
